@@ -29,7 +29,8 @@ def payload(rng, cat=None):
     elif cat == "long":
         s = "".join(rng.choice("abcé中") for _ in range(rng.randint(200, 3000)))
     elif cat == "digits":
-        s = rng.choice(["0", "1", "-1", "100", "3.14", "1e9", "٣٤", "１２", "1_000", "+5", "0x1F"])
+        # incl. digit strings beyond what int() converts (CPython refuses more than 4300 digits with a plain ValueError)
+        s = rng.choice(["0", "1", "-1", "100", "3.14", "1e9", "٣٤", "１２", "1_000", "+5", "0x1F", "9" * 4301, "1." + "9" * 4301, "-" + "7" * 5000])
     elif cat == "ctrl":
         s = "".join(chr(rng.choice([1, 2, 7, 8, 0x1b, 0x7f, 0x80, 0x9f, 0xad, 0xfeff, 0xfffd, 0xfffe])) for _ in range(rng.randint(1, 4))) + "x"
     elif cat == "escapes":
@@ -143,6 +144,9 @@ def valid_line(rng, version, nodes=NODES, children=CHILDREN, unicode_frac=0.15):
     k = rng.random()
     if k < 0.10:
         pv = rng.choice([version, "1.4", "1.5", "2.0", "2.1.1", "2.2.0", "2.3.2", "abc", "1.3", "", "2"])
+        if rng.random() < 0.12:
+            # whatever a node (or line noise) puts where the version belongs, incl. more digits than int() converts
+            pv = rng.choice([payload(rng)[0], payload(rng, "digits")[0], "9" * 4301, "1." + "9" * 4301, "2." + "0" * 4400 + "1"])
         return f"{n};255;0;{rng.choice([0, 0, 1])};{rng.choice([17, 18, 17, 6])};{pv}"
     if k < 0.26:
         pt = rng.choice([t for t in PRES_CHILD_TYPES if t <= spec.MAX_PRES[version]])
